@@ -24,6 +24,20 @@ pub use self::fr::{Fr, FrRepr};
 pub(crate) use self::isogeny::IsogenyMap;
 pub(crate) use self::osswu_map::OSSWUMap;
 
+/// Verification hooks: re-exports of crate-private traits, chains and constant tables.
+#[cfg(feature = "verif-hooks")]
+pub mod verif_hooks {
+    pub use super::cofactor::ClearH;
+    pub use super::cofactor::{verif_chain_h2_eff as chain_h2_eff, verif_chain_z as chain_z};
+    pub use super::isogeny::IsogenyMap;
+    pub use super::isogeny::{verif_iso11_tables as iso11_tables, verif_iso3_tables as iso3_tables};
+    pub use super::osswu_map::OSSWUMap;
+    pub use super::osswu_map::{
+        verif_chain_p2m9div16 as chain_p2m9div16, verif_chain_pm3div4 as chain_pm3div4,
+        verif_osswu_g1_consts as osswu_g1_consts, verif_osswu_g2_consts as osswu_g2_consts,
+    };
+}
+
 pub mod transmute {
     pub use super::ec::g1::transmute_affine as g1_affine;
     pub use super::ec::g1::transmute_projective as g1_projective;
